@@ -42,6 +42,18 @@ type gp struct {
 	Len   int
 	Seed  uint64
 	cid   uint32
+	// a queued container (FlagMulti and/or FlagMultiDevice in Flags): the packets it holds;
+	// Flags carries the count (com.Flag.SetLen), Len is computed when it is built
+	Inner []gp
+	cont  bool
+}
+
+// container builds a queued container for device dev holding inner; extra = further flag bits
+// (FlagMultiDevice, FlagProxy, FlagChannel)
+func container(dev int, extra uint64, tags []uint32, inner ...gp) gp {
+	f := com.FlagMulti | com.Flag(extra)
+	f.SetLen(uint16(len(inner)))
+	return gp{Dev: dev, Flags: uint64(f), Tags: tags, Inner: inner, cont: true}
 }
 
 func payload(seed uint64, n int) []byte {
@@ -90,6 +102,15 @@ func (g *gp) build() *com.Packet {
 	if len(g.Tags) > 0 {
 		p.Tags = append([]uint32(nil), g.Tags...)
 	}
+	if g.cont {
+		for i := range g.Inner {
+			if err := g.Inner[i].build().MarshalStream(p); err != nil {
+				panic("c03: MarshalStream: " + err.Error())
+			}
+		}
+		g.Len = p.Chunk.Size()
+		return p
+	}
 	if g.Len > 0 {
 		b := payload(g.Seed, g.Len)
 		g.cid = cidOf(b)
@@ -106,14 +127,28 @@ func tagsCoq(t []uint32) string {
 	return vh.ZList64(v)
 }
 func (g *gp) coq() string {
+	if g.cont {
+		in := make([]string, len(g.Inner))
+		for i := range g.Inner {
+			in[i] = g.Inner[i].coq()
+		}
+		return fmt.Sprintf("pkc %d %d %d %d %s %d %s", g.ID, g.Job, g.Dev, g.Flags, tagsCoq(g.Tags), g.Len, vh.List(in))
+	}
 	return fmt.Sprintf("pk %d %d %d %d %s %d %d", g.ID, g.Job, g.Dev, g.Flags, tagsCoq(g.Tags), g.Len, g.cid)
 }
 func (g *gp) isNop() bool {
-	return g.ID < 2 && g.Len == 0 && (g.Flags == 0 || g.Flags == uint64(com.FlagProxy))
+	return !g.cont && g.ID < 2 && g.Len == 0 && (g.Flags == 0 || g.Flags == uint64(com.FlagProxy))
 }
 func (g *gp) group() uint16   { return uint16(g.Flags >> 16) }
 func (g *gp) fragLen() uint16 { return uint16(g.Flags >> 48) }
 func (g *gp) desc() map[string]interface{} {
+	if g.cont {
+		in := make([]interface{}, len(g.Inner))
+		for i := range g.Inner {
+			in[i] = g.Inner[i].desc()
+		}
+		return map[string]interface{}{"container": true, "dev": g.Dev, "flags": fmt.Sprintf("0x%X", g.Flags), "tags": g.Tags, "holds": in}
+	}
 	return map[string]interface{}{"id": g.ID, "job": g.Job, "dev": g.Dev, "flags": fmt.Sprintf("0x%X", g.Flags),
 		"tags": g.Tags, "len": g.Len, "seed": g.Seed}
 }
@@ -150,6 +185,9 @@ type qcase struct {
 	Reg      []int
 	Q        []gp
 	Class    string
+	// OracleOnly: judged by the oracle on the implementation only, no model case (queues whose
+	// fragment groups COMPLETE on the receiver: reassembly is C02's model, not this one)
+	OracleOnly bool
 }
 
 func errCode(err error) int {
@@ -171,6 +209,9 @@ func errCode(err error) int {
 func optPeek(p *com.Packet) string {
 	if p == nil {
 		return "None"
+	}
+	if p.Flags&(com.FlagMulti|com.FlagMultiDevice) != 0 {
+		return fmt.Sprintf("(Some (%d,0))", p.Job) // a container: its content is the packets it holds
 	}
 	return fmt.Sprintf("(Some (%d,%d))", p.Job, cidOf(p.Payload()))
 }
@@ -340,7 +381,11 @@ func run(c qcase) {
 	if len(qd) > 40 {
 		desc["queue"] = append(qd[:40:40], fmt.Sprintf("... %d more (regenerate with the seed)", len(qd)-40))
 	}
-	out.Add(term, c.Class, nontrivial && len(c.Q) >= 2, desc)
+	if c.OracleOnly {
+		out.Count(c.Class, term, nontrivial && len(c.Q) >= 2)
+	} else {
+		out.Add(term, c.Class, nontrivial && len(c.Q) >= 2, desc)
+	}
 	if lenzero {
 		out.Note("observation (not a violation): a queue of only keep-alives (>= 2) produced a Multi container with Len 0; the peer rejects it with ErrInvalidPacketCount; the delivered sequence (empty) is as specified")
 	}
@@ -379,6 +424,18 @@ func collect(w *c2.C03World, e0 int, seen map[*com.Packet]bool) ([]dlv, []dlv) {
 
 // oracle evaluates the property itself on what the implementation delivered.
 func oracle(c qcase, desc map[string]interface{}, mux, frags []dlv) {
+	// queued containers are opened: the peer's handlers must see the packets they hold
+	{
+		var flat []gp
+		for i := range c.Q {
+			if c.Q[i].cont {
+				flat = append(flat, c.Q[i].Inner...)
+			} else {
+				flat = append(flat, c.Q[i])
+			}
+		}
+		c.Q = flat
+	}
 	// ---- the oracle: the property on the implementation
 	// expected: the queued packets, device filled in, keep-alives removed; restricted to what
 	// the mux / fragment tables can show (ID >= MvRefresh).
@@ -388,8 +445,77 @@ func oracle(c qcase, desc map[string]interface{}, mux, frags []dlv) {
 		stored    bool
 	}
 	var em, ef []exp
+	// fragment groups that are queued completely (positions 0..total-1, in order): the peer
+	// reassembles them and its handlers see ONE packet when the last fragment arrives
+	type grp struct{ idx []int }
+	groups := map[string]*grp{}
 	for i := range c.Q {
 		g := &c.Q[i]
+		if g.Flags&uint64(com.FlagFrag) != 0 && g.fragLen() >= 2 && g.ID >= 7 {
+			d := g.Dev
+			if d == 0 {
+				d = c.Own
+			}
+			k := fmt.Sprintf("%d/%d", d, g.group())
+			if groups[k] == nil {
+				groups[k] = &grp{}
+			}
+			groups[k].idx = append(groups[k].idx, i)
+		}
+	}
+	completeAt := map[int]exp{} // index of the completing fragment -> the reassembled packet
+	member := map[int]bool{}
+	completeKey := map[string]bool{}
+	for k, gr := range groups {
+		first := &c.Q[gr.idx[0]]
+		if len(gr.idx) != int(first.fragLen()) {
+			continue
+		}
+		// any arrival order with position 0 first (the peer drops a group that starts otherwise)
+		ok := uint16(first.Flags>>32) == 0
+		byPos := make([]*gp, len(gr.idx))
+		for _, i := range gr.idx {
+			q := &c.Q[i]
+			pos := int(uint16(q.Flags >> 32))
+			if pos >= len(byPos) || byPos[pos] != nil || q.ID != first.ID || q.Job != first.Job || q.fragLen() != first.fragLen() {
+				ok = false
+				break
+			}
+			byPos[pos] = q
+		}
+		var data []byte
+		fl := uint64(0)
+		if ok {
+			for _, q := range byPos {
+				if q.Len > 0 {
+					data = append(data, payload(q.Seed, q.Len)...)
+					fl |= uint64(uint16(q.Flags))
+				}
+			}
+		}
+		if !ok || len(data) == 0 {
+			continue
+		}
+		d := first.Dev
+		if d == 0 {
+			d = c.Own
+		}
+		for _, i := range gr.idx {
+			member[i] = true
+		}
+		completeKey[k] = true
+		completeAt[gr.idx[len(gr.idx)-1]] = exp{d: dlv{Sid: d, ID: first.ID, Job: first.Job, Dev: d,
+			Flags: uint64(uint16(fl)) ^ uint64(com.FlagFrag), Len: len(data), Cid: cidOf(data)}}
+	}
+	for i := range c.Q {
+		g := &c.Q[i]
+		if e, ok := completeAt[i]; ok {
+			em = append(em, e)
+			continue
+		}
+		if member[i] {
+			continue
+		}
 		if g.isNop() || g.ID < 7 {
 			continue
 		}
@@ -454,6 +580,9 @@ func oracle(c qcase, desc map[string]interface{}, mux, frags []dlv) {
 		eby[k] = append(eby[k], e)
 	}
 	for k := range by {
+		if completeKey[k] {
+			continue // seen stored before the group completed
+		}
 		if _, ok := eby[k]; !ok {
 			desc["unexpected_group"] = k
 			out.Fail("the peer stored a fragment that was not queued", "duplicate-or-alien", desc)
@@ -1035,6 +1164,200 @@ func main() {
 			c.Class = "random-abandoned"
 		}
 		run(c)
+	}
+
+	// ---- queued containers: Proxy.notify re-queues the batch of a proxied client whole on the parent
+	// Session; writeUnpack splices it into the next transmission (both flag forms)
+	{
+		px, md, ch := uint64(com.FlagProxy), uint64(com.FlagMultiDevice), uint64(com.FlagChannel)
+		cc := func(class string, own int, foreign []int, q ...gp) {
+			run(qcase{Own: own, Server: g.r.Bool(), Reg: regOf(own, foreign), Q: q, Class: class})
+		}
+		x1 := func(d int) gp { return mk(8, d, 0, 2) }
+		// the scenario of a proxying Session: its own packet, then the batch of client 2
+		cc("cont-corpus", 1, []int{2}, mk(8, 1, 0, 1), container(2, px, nil, x1(2), x1(2)))
+		cc("cont-corpus", 1, []int{2}, mk(8, 1, 0, 1), container(2, 0, nil, x1(2), x1(2)))
+		cc("cont-corpus", 1, []int{2}, container(2, px, nil, x1(2), x1(2)), mk(8, 1, 0, 1))
+		cc("cont-corpus", 1, []int{2}, container(2, px, nil, x1(2), x1(2)))
+		cc("cont-corpus", 1, []int{2}, container(2, px|md, nil, x1(2), x1(2)))
+		cc("cont-corpus", 1, []int{2, 3}, mk(8, 1, 0, 1), container(2, px|md, nil, x1(2), x1(3), x1(2)), mk(9, 1, 0, 3))
+		cc("cont-corpus", 1, []int{2, 3}, container(2, px, nil, x1(2)), container(3, px, nil, x1(3), x1(3)), mk(9, 1, 0, 3))
+		cc("cont-corpus", 1, []int{2}, container(2, px|ch, []uint32{7}, x1(2), gp{ID: 9, Job: 77, Dev: 2, Tags: []uint32{5, 6}, Len: 3, Seed: 4}), mk(9, 1, 0, 3))
+		// an own container: alone (sent as it is), with others (spliced), holding one packet (unwrapped)
+		cc("cont-corpus", 1, nil, container(1, 0, nil, x1(1), x1(1)))
+		cc("cont-corpus", 1, nil, container(0, 0, nil, x1(1), x1(1)))
+		cc("cont-corpus", 1, nil, container(1, md, nil, x1(1), x1(1)))
+		cc("cont-corpus", 1, nil, container(1, 0, nil, x1(1), x1(1)), mk(9, 1, 0, 3))
+		cc("cont-corpus", 1, nil, mk(9, 1, 0, 3), container(1, 0, []uint32{4}, x1(1), x1(1)), mk(10, 1, 0, 3))
+		cc("cont-corpus", 1, nil, nopOf(1), container(1, 0, nil, x1(1)), nopOf(1))
+		cc("cont-corpus", 1, nil, container(1, 0, nil, x1(1)))
+		cc("cont-corpus", 1, []int{2}, nopOf(1), container(2, px, nil, x1(2)))
+		// a container with count 0 is dropped (ErrInvalidPacketCount ignored by nextPacket): it holds nothing
+		cc("cont-corpus", 1, []int{2}, mk(8, 1, 0, 1), container(2, px, nil), mk(9, 1, 0, 1))
+		// budget: the container is the packet that does not fit
+		hb := lenForSize(F/2, 0)
+		cc("cont-budget", 1, []int{2}, mk(8, 1, 0, hb), container(2, px, nil, mk(8, 2, 0, hb), x1(2)), mk(9, 1, 0, 1))
+		cc("cont-budget", 1, []int{2}, container(2, px, nil, mk(8, 2, 0, hb), x1(2)), mk(8, 1, 0, hb), mk(9, 1, 0, 1))
+		cc("cont-budget", 1, nil, container(1, 0, nil, mk(8, 1, 0, hb), x1(1)), container(1, 0, nil, mk(8, 1, 0, hb), x1(1)))
+		// count: containers count as one packet each against limits.Packets
+		{
+			var q []gp
+			for i := 0; i < NP+3; i++ {
+				if i%3 == 0 {
+					q = append(q, container(2, px, nil, x1(2), x1(2), x1(2)))
+				} else {
+					q = append(q, mk(uint8(7+i), 1, 0, i%4))
+				}
+			}
+			cc("cont-budget", 1, []int{2}, q...)
+		}
+		ncont := 90
+		if thorough {
+			ncont = 1200
+		}
+		for it := 0; it < ncont; it++ {
+			own := 1 + g.r.Intn(3)
+			foreign := []int{own + 3}
+			if g.r.Bool() {
+				foreign = append(foreign, own+4)
+			}
+			n := 1 + g.r.Intn(8)
+			if g.r.Intn(5) == 0 {
+				n = NP - 2 + g.r.Intn(6)
+			}
+			prof := [][]string{{"0", "1", "1k"}, {"F/3", "1k", "1"}, {"0", "1", "r", "r"}}[g.r.Intn(3)]
+			var q []gp
+			for len(q) < n {
+				switch x := g.r.Intn(100); {
+				case x < 35:
+					d := foreign[g.r.Intn(len(foreign))]
+					extra := []uint64{0, px, px, px | md, px | ch}[g.r.Intn(5)]
+					if g.r.Intn(4) == 0 {
+						d, extra = []int{own, 0}[g.r.Intn(2)], []uint64{0, md}[g.r.Intn(2)]
+					}
+					k := 1 + g.r.Intn(4)
+					in := make([]gp, k)
+					for j := range in {
+						dd := d
+						if dd == 0 {
+							dd = own
+						}
+						if extra&md != 0 && dd != own && g.r.Intn(3) == 0 {
+							dd = foreign[g.r.Intn(len(foreign))]
+						}
+						in[j] = g.dataPkt(dd, nil, prof)
+						in[j].Dev = dd
+						if g.r.Intn(6) == 0 {
+							in[j].Tags = nil
+						}
+					}
+					var tg []uint32
+					if g.r.Intn(4) == 0 {
+						tg = g.tags()
+					}
+					q = append(q, container(d, extra, tg, in...))
+				case x < 45:
+					q = append(q, g.nop(own, foreign))
+				default:
+					q = append(q, g.dataPkt(own, foreign, prof))
+				}
+			}
+			cc("cont-random", own, foreign, q...)
+		}
+		// ... and on the proxy's queue for one of its clients (the batch the server sent for that client)
+		runPC(qcase{Own: 1, Reg: []int{1}, Class: "pc-cont", Q: []gp{container(1, md, nil, x1(1), x1(1))}})
+		runPC(qcase{Own: 1, Reg: []int{1}, Class: "pc-cont", Q: []gp{container(1, md, nil, x1(1), x1(1)), mk(9, 1, 0, 3)}})
+		runPC(qcase{Own: 1, Reg: []int{1}, Class: "pc-cont", Q: []gp{mk(9, 1, 0, 3), container(1, md, nil, x1(1), x1(1)), container(1, 0, nil, x1(1))}})
+		runPC(qcase{Own: 1, Reg: []int{1}, Class: "pc-cont", Q: []gp{container(1, md, nil, mk(8, 1, 0, hb), x1(1)), container(1, md, nil, mk(8, 1, 0, hb))}})
+	}
+
+	// ---- oracle-only: a fragment group that COMPLETES inside one container, followed by more packets
+	// (regression for Chunk.Bytes handing out sub-slices with spare capacity: the reassembly
+	// appended in place over the not yet decoded rest of the container)
+	{
+		// a complete group; lens by position; order: position 0 first, the rest as given by perm (nil = in order)
+		fullp := func(dev int, group uint16, perm []int, lens ...int) []gp {
+			id, job := uint8(7+g.r.Intn(249)), g.nextJob()
+			r := make([]gp, len(lens))
+			for i := range r {
+				pos := i
+				if perm != nil {
+					pos = perm[i]
+				}
+				var f com.Flag
+				f.SetGroup(group)
+				f.SetLen(uint16(len(lens)))
+				f.SetPosition(uint16(pos))
+				r[i] = gp{ID: id, Job: job, Dev: dev, Flags: uint64(f), Len: lens[pos], Seed: g.r.U64()}
+			}
+			return r
+		}
+		full := func(dev int, group uint16, lens ...int) []gp { return fullp(dev, group, nil, lens...) }
+		oo := func(class string, own int, foreign []int, q ...gp) {
+			run(qcase{Own: own, Reg: regOf(own, foreign), Q: q, Class: class, OracleOnly: true})
+		}
+		cat := func(parts ...[]gp) []gp {
+			var r []gp
+			for _, p := range parts {
+				r = append(r, p...)
+			}
+			return r
+		}
+		one := func(p gp) []gp { return []gp{p} }
+		oo("group-completes-in-container", 1, nil, cat(full(1, 700, 8, 1), one(mk(8, 1, 0, 4)), one(mk(9, 1, 0, 6)))...)
+		oo("group-completes-in-container", 1, nil, cat(one(mk(7, 1, 0, 3)), full(1, 701, 100, 3), one(mk(8, 1, 0, 4)))...)
+		oo("group-completes-in-container", 1, nil, cat(full(1, 702, 5, 0), one(mk(8, 1, 0, 4)))...)
+		oo("group-completes-in-container", 1, nil, cat(full(1, 703, 5, 7, 9), one(mk(8, 1, 0, 4)), one(mk(9, 1, 0, 4)))...)
+		oo("group-completes-in-container", 1, []int{2}, cat(full(2, 704, 8, 2), one(mk(8, 1, 0, 4)), one(mk(9, 2, 0, 6)))...)
+		oo("group-completes-in-container", 1, nil, cat(full(1, 705, 8, 1))...)
+		oo("group-completes-in-container", 1, nil, cat(full(1, 706, 1024, 1024), full(1, 707, 3, 300), one(mk(9, 1, 0, 6)))...)
+		// the lowest stored position arrives last: empty position 0, then 2, then 1 (the reassembly appends
+		// the payload of position 2 behind the payload of position 1, i.e. behind the last decoded sub-packet)
+		oo("group-completes-in-container", 1, nil, cat(fullp(1, 708, []int{0, 2, 1}, 0, 4, 5), one(mk(8, 1, 0, 4)), one(mk(9, 1, 0, 6)))...)
+		oo("group-completes-in-container", 1, nil, cat(one(mk(7, 1, 0, 2)), fullp(1, 709, []int{0, 2, 1}, 0, 30, 60), one(mk(8, 1, 0, 4)))...)
+		oo("group-completes-in-container", 1, []int{2}, cat(fullp(2, 710, []int{0, 3, 2, 1}, 0, 9, 9, 9), one(mk(8, 2, 0, 4)), one(mk(9, 1, 0, 6)))...)
+		oo("group-completes-in-container", 1, nil, cat(fullp(1, 711, []int{0, 2, 1}, 7, 4, 5), one(mk(8, 1, 0, 4)))...)
+		ngrp := 40
+		if thorough {
+			ngrp = 600
+		}
+		for it := 0; it < ngrp; it++ {
+			own := 1 + g.r.Intn(3)
+			var foreign []int
+			if g.r.Intn(3) == 0 {
+				foreign = []int{own + 3}
+			}
+			var q []gp
+			ngroups := 1 + g.r.Intn(2)
+			for x := 0; x < 1+g.r.Intn(3); x++ {
+				q = append(q, g.dataPkt(own, foreign, []string{"0", "1", "r"}))
+			}
+			for x := 0; x < ngroups; x++ {
+				lens := make([]int, 2+g.r.Intn(3))
+				for i := range lens {
+					lens[i] = []int{0, 1, 2, 17, 300}[g.r.Intn(5)]
+				}
+				if lens[len(lens)-1] == 0 && lens[0] == 0 {
+					lens[len(lens)-1] = 1 + g.r.Intn(40)
+				}
+				// arrival order: position 0 first, the others shuffled half of the time
+				perm := make([]int, len(lens))
+				for i := range perm {
+					perm[i] = i
+				}
+				if g.r.Bool() {
+					for i := len(perm) - 1; i > 1; i-- {
+						j := 1 + g.r.Intn(i)
+						perm[i], perm[j] = perm[j], perm[i]
+					}
+				}
+				q = append(q, fullp(g.dev(own, foreign, 70, 0), uint16(800+it*4+x), perm, lens...)...)
+				for y := 0; y < g.r.Intn(3); y++ {
+					q = append(q, g.dataPkt(own, foreign, []string{"0", "1", "r"}))
+				}
+			}
+			oo("group-completes-in-container", own, foreign, q...)
+		}
 	}
 
 	// ---- the proxy's queue for one of its clients (proxyClient.next), polled until drained + 2 polls
